@@ -84,6 +84,7 @@ CHECKS["C09"] = {
           quick={"params": {"maxentries": 3}, "timeout": 280},
           thorough={"params": {"maxentries": 4}, "timeout": 2400}),
         H("cmap", "c09.go", "VerifH_C09_f12dec", ["accepted"], quick={"timeout": 200}),
+        H("cmap", "c09.go", "VerifH_C09_coderange", ["done"], quick={"timeout": 200}),
         H("cmap", "c09.go", "VerifH_C09_f06", ["format0", "format6"], quick={"timeout": 200}),
         H("cmap", "c09.go", "VerifH_C09_table", ["decoded"],
           quick={"params": {"maxsub": 2}, "timeout": 280}, thorough={"params": {"maxsub": 3}, "timeout": 2400}),
@@ -110,10 +111,11 @@ CHECKS["C12"] = {
         H("os2", "c12.go", "VerifH_C12_os2_bytes", ["accepted"], quick={"timeout": 280}),
         H("post", "c12.go", "VerifH_C12_post", ["read"], quick={"timeout": 200}),
         H("post", "c12.go", "VerifH_C12_post_bytes", ["accepted"], quick={"timeout": 200}),
+        H(".", ["c12.go", "common.go"], "VerifH_C12_fontderived", ["read"], quick={"timeout": 280}),
     ],
     "bounds": {"quick": "hmtx: 1..2 glyphs with symbolic int16 widths, extents and (optionally explicit) side bearings, vertical caret; arbitrary 36-byte hhea + <=8 byte hmtx; head: all fields symbolic (timestamps any int64 second or unset), arbitrary 54 bytes; maxp both versions, arbitrary <=32 bytes; OS/2: all fields symbolic (version 4), arbitrary tables of 68..100 bytes; post header: italic angle any 16.16 value, arbitrary 32..36 bytes",
                "thorough": "hmtx 3 glyphs / 16 bytes"},
-    "outside": ["caret slope rise/run (Atan2/Sin/Cos are outside the solver fragment): vertical caret only", "glyph counts above 6", "font-level derived fields (FontBBox, xAvgCharWidth, first/last char) and PDF-unit queries: see C01/C15 harnesses where present", "post glyph names (C14)"],
+    "outside": ["caret slope rise/run (Atan2/Sin/Cos are outside the solver fragment): vertical caret only", "glyph counts above 6", "font-level derived fields other than usFirstCharIndex / usLastCharIndex (FontBBox, xAvgCharWidth) and PDF-unit queries", "post glyph names (C14)"],
     "assumptions": ["OS/2 normal form: IsRegular clears IsBold/IsItalic, non-positive XHeight/CapHeight are stored as 0, Unicode range bit 57 follows LastCharIndex==0xFFFF", "a timestamp encoding to 0 (1904-01-01 00:00:00) is read as 'unset'", "xMaxExtent/minRSB definitions checked with lsb = xMin (LSB derived from the extents)"],
 }
 
@@ -143,6 +145,7 @@ CHECKS["C13"] = {
         H("cff", "c13.go", "VerifH_C13_charset", ["read"], quick={"params": {"maxnames": 4}, "timeout": 280}, thorough={"params": {"maxnames": 7}, "timeout": 2400}),
         H("cff", "c13.go", "VerifH_C13_charset_long", ["done"], quick={"timeout": 280}),
         H("cff", "c13.go", "VerifH_C13_fdselect", ["format3", "format0"], quick={"params": {"nchoices": 5}, "timeout": 280}, thorough={"params": {"nchoices": 7}, "timeout": 2400}),
+        H("cff", "c13.go", "VerifH_C13_private", ["made"], quick={"timeout": 200}),
         H("cff", "c13.go", "VerifH_C13_width", ["selected"], quick={"params": {"maxglyphsel": 2}, "timeout": 280}, thorough={"params": {"maxglyphsel": 3}, "timeout": 2400}),
     ],
     "bounds": {"quick": "DICT: 1..2 operands, each any int32; arbitrary DICT bytes (<=2, no reals); INDEX: 0..3 blobs of 0..2 symbolic bytes, and single blobs at the offSize thresholds {0,1,254,255,256,65534,65535,65536,70000}; charset: 1..4 symbolic 16-bit SIDs/CIDs (every run structure) plus runs of {255,256,257,300,513}; FDSelect: {1,2,5,8,9} glyphs over 1..3 font dicts, symbolic query glyph; widths: fonts of 1 or 2 glyphs with symbolic widths on a 1/16 grid in [-2000,2000] through selectWidths, makePrivateDict, encodeCharString and decodeCharString",
@@ -179,6 +182,7 @@ CHECKS["C04"] = {
         H("cff", ["c04.go", "t2ref.go"], "VerifH_C04_stems", ["compiled"], quick={"params": {"stemchoices": 5, "maskkinds": 2}, "timeout": 280, "shards": 5}, thorough={"params": {"stemchoices": 7, "maskkinds": 4, "symv": 1}, "timeout": 2400, "shards": 7}),
         H("cff", ["c04.go", "t2ref.go"], "VerifH_C04_long", ["compiled"], quick={"timeout": 280}),
         H("cff", ["c04.go", "t2ref.go"], "VerifH_C04_flex", ["compiled"], quick={"params": {"flexrange": 2}, "timeout": 280}, thorough={"params": {"flexrange": 6}, "timeout": 2400}),
+        H("cff", ["c04.go", "t2ref.go"], "VerifH_C04_hvcurves", ["compiled"], quick={"params": {"hvextra": 0}, "timeout": 280}, thorough={"params": {"hvextra": 1}, "timeout": 2400}),
         H("cff", ["c04.go", "t2ref.go"], "VerifH_C04_accum", ["compiled"], quick={"params": {"accumextra": 0}, "timeout": 280}, thorough={"params": {"accumextra": 2}, "timeout": 2400}),
         H("cff", ["c04.go", "t2ref.go"], "VerifH_C04_bigdelta", [], quick={"timeout": 200}),
     ],
@@ -226,6 +230,7 @@ CHECKS["C08"] = {
         H("opentype/coverage", "c08.go", "VerifH_C08_coverage_bytes", ["accepted"], quick={"params": {"maxlen": 8}, "timeout": 280}, thorough={"params": {"maxlen": 16}, "timeout": 2400}),
         H("opentype/classdef", "c08.go", "VerifH_C08_classdef", ["read", "format1", "format2"], quick={"params": {"maxglyphs": 3}, "timeout": 280}, thorough={"params": {"maxglyphs": 5}, "timeout": 2400}),
         H("opentype/classdef", "c08.go", "VerifH_C08_classdef_bytes", ["accepted"], quick={"params": {"maxlen": 8}, "timeout": 280}, thorough={"params": {"maxlen": 16}, "timeout": 2400}),
+        H("opentype/classdef", "c08.go", "VerifH_C08_classdef_runs", ["read", "format2"], quick={"timeout": 280, "shards": 2}),
         H("opentype/gdef", "c08.go", "VerifH_C08_gdef", ["read"], quick={"timeout": 280, "shards": 2}),
         H("opentype/gtab", _G, "VerifH_C08_gsub", ["read"], quick={"timeout": 280}),
         H("opentype/gtab", _G, "VerifH_C08_gpos", ["read"], quick={"timeout": 280}),
@@ -337,6 +342,7 @@ CHECKS["C18"] = {
 CHECKS["C01"] = {
     "harnesses": [
         H(".", ["c01.go", "common.go"], "VerifH_C01_shapes", ["read back"], quick={"timeout": 280, "shards": 6}),
+        H("cff", "c13.go", "VerifH_C13_width", ["selected"], quick={"params": {"maxglyphsel": 2}, "timeout": 280}, thorough={"params": {"maxglyphsel": 3}, "timeout": 2400}),
         H(".", ["c01.go", "common.go"], "VerifH_C01_truetype", ["read back"], quick={"params": {"upems": 2, "widthclasses": 2, "symwidths": 2, "perms": 2}, "timeout": 290, "shards": 12}, thorough={"params": {"upems": 3, "widthclasses": 9, "symwidths": 4, "symweight": 1, "perms": 4}, "timeout": 3000, "shards": 16}),
     ],
     "level_text": "Compositional and bounded: the table-level round trips and fixed points are decided by the checks of C03, C08, C09, C11, C12, C13 and C14; this check adds the whole-font merge (Font.Write -> sfnt.Read -> Font.Write) executed symbolically on a tiny TrueType font of concrete shape with symbolic numeric fields.  It holds for all values of those fields within the bounds, and says nothing about other font shapes.",
@@ -349,11 +355,12 @@ CHECKS["C01"] = {
 CHECKS["C16"] = {
     "harnesses": [
         H(".", ["c16.go", "common.go"], "VerifH_C16_readonly", ["done"], quick={"timeout": 280, "shards": 9}),
+        H("opentype/gtab/builder", ["c19.go"], "VerifH_C16_explain", ["done"], quick={"timeout": 280}),
     ],
     "level_text": "Frame argument decided symbolically: after the font is built every existing object (the font, everything reachable from it, all package-level variables) is frozen and every store, map update, delete, in-place append or copy into a frozen object during a read-only API call is an obligation, on every path.  Operations that only read shared memory cannot race with each other under the Go memory model and their results are functions of the shared state alone; this is a sufficient condition, actual interleavings are not explored.",
-    "bounds": {"quick": "one TrueType font (5 glyphs incl. a composite and an empty glyph, format 12 cmap, one GSUB 4.1 lookup, one GPOS 2.1 lookup with script/feature lists); operations: Write, WriteTrueTypePDF, Subset (symbolic glyph), Clone, FontBBox/Widths/GlyphBBoxes/IsFixedPitch/NumGlyphs, MakeGlyphNames, GetFontInfo, NewLayouter+Layout twice, gtab.NewContext+Apply on the shared lookup list",
+    "bounds": {"quick": "one TrueType font (5 glyphs incl. a composite and an empty glyph, format 12 cmap, one GSUB 4.1 lookup, one GPOS 2.1 lookup with script/feature lists); operations: Write, WriteTrueTypePDF, Subset (symbolic glyph), Clone, FontBBox/Widths/GlyphBBoxes/IsFixedPitch/NumGlyphs, MakeGlyphNames, GetFontInfo, NewLayouter+Layout twice, gtab.NewContext+Apply on the shared lookup list; builder.ExplainGsub / ExplainGpos on a second font (8 glyphs, GSUB 2.1/3.1/4.1/6.3 and GPOS 1.2/2.1 with unsorted alternate sets, ligature lists and coverage tables)",
                "thorough": "same"},
-    "outside": ["actual goroutine interleavings and the Go race detector", "CFF fonts (AsCFF().Write, WriteOpenTypeCFFPDF)", "builder.ExplainGsub/ExplainGpos (formatting-bound)", "races inside natively executed library functions (language matcher, Adobe glyph list)"],
+    "outside": ["actual goroutine interleavings and the Go race detector", "CFF fonts (AsCFF().Write, WriteOpenTypeCFFPDF)", "races inside natively executed library functions (language matcher, Adobe glyph list)"],
     "assumptions": ["Go memory model: calls that do not write shared memory do not race", "natively executed intrinsics (x/text language matching, names.FromUnicode) are assumed not to write shared state"],
 }
 
